@@ -2,10 +2,15 @@
 import os
 from vlib import PKG
 import translate_arith
+import translate_params
 
 
 def gen_arith():
     return translate_arith.translate(os.path.join(PKG, "pba/intervals/arithmetic.py"))
 
 
-ALL = [("GenArith", gen_arith)]
+def gen_params():
+    return translate_params.translate(os.path.join(PKG, "pba/params.py"))
+
+
+ALL = [("GenArith", gen_arith), ("GenParams", gen_params)]
